@@ -77,3 +77,67 @@ func VHarness_C07_UpdateUser() {
 	}
 	vAssert(assigned == released+carried, "every sequence reserved by a user update is carried by the stored user or released as unused")
 }
+
+// VHarness_C07_DeleteRole: DatabaseContext.DeleteRole (mark deleted, or purge) accounts for the sequence it reserves.
+func VHarness_C07_DeleteRole() {
+	ctx := context.Background()
+	s, st := vhNewAllocator(false)
+	vAssume(s.last >= 10)
+	dbc := &DatabaseContext{sequences: s}
+	vhUPAuth = auth.VhNewAuthenticatorWithRole(true, vParam("interfere", 1) > 0, vParam("interfere", 1))
+	assignedBefore := s.dbStats.SequenceAssignedCount.Value()
+	purge := vNondetBool()
+	err := dbc.DeleteRole(ctx, "r1", purge)
+	assigned := s.dbStats.SequenceAssignedCount.Value() - assignedBefore
+	var released uint64
+	for _, iv := range st.released {
+		released += iv.hi - iv.lo + 1
+	}
+	storedSeq, _, _ := auth.VhStoredRoleSequence(vhUPAuth)
+	var carried uint64
+	if storedSeq > 1 {
+		carried = 1
+		vAssert(vhIn(storedSeq, st.released) == 0, "the sequence carried by the stored role is not also released as unused")
+	}
+	if purge {
+		vCover("role-purged")
+	}
+	if err == nil {
+		vCover("role-deleted")
+	}
+	vAssert(assigned == released+carried, "every sequence reserved by a role deletion is carried by the stored role or released as unused")
+}
+
+// VHarness_C07_RegeneratePrincipal: regeneratePrincipalSequences (resync with regenerate_sequences) for a role that
+// may already carry this resync's id (updated by another node).
+func VHarness_C07_RegeneratePrincipal() {
+	ctx := context.Background()
+	s, st := vhNewAllocator(false)
+	vAssume(s.last >= 10)
+	dbc := &DatabaseContext{sequences: s}
+	a := auth.VhNewAuthenticatorWithRole(true, vParam("interfere", 1) > 0, vParam("interfere", 1))
+	vhUPAuth = a
+	if vNondetBool() {
+		auth.VhSetStoredRoleResyncID(a, "resync1")
+		vCover("already-resynced")
+	}
+	role, gerr := a.GetRole("r1")
+	if gerr != nil || role == nil {
+		return
+	}
+	assignedBefore := s.dbStats.SequenceAssignedCount.Value()
+	err := dbc.regeneratePrincipalSequences(ctx, a, role, "resync1")
+	_ = err
+	assigned := s.dbStats.SequenceAssignedCount.Value() - assignedBefore
+	var released uint64
+	for _, iv := range st.released {
+		released += iv.hi - iv.lo + 1
+	}
+	storedSeq, _, _ := auth.VhStoredRoleSequence(a)
+	var carried uint64
+	if storedSeq > 1 {
+		carried = 1
+		vAssert(vhIn(storedSeq, st.released) == 0, "the sequence carried by the stored role is not also released as unused")
+	}
+	vAssert(assigned == released+carried, "every sequence reserved while regenerating a principal's sequence is carried by the stored principal or released as unused")
+}
